@@ -78,8 +78,8 @@ def check_partition(p, s1, s2, k, ctx, base, tag):
 
 
 def cases(tier, seed):
-    npairs = 500 if tier == "quick" else 6000
-    nseq = 120 if tier == "quick" else 1500
+    npairs = 500 if tier == "quick" else 40000
+    nseq = 120 if tier == "quick" else 10000
     out = [{"id": "pair/%d" % i, "kind": "pair", "seed": [seed, 10, i]} for i in range(npairs)]
     out += [{"id": "nndvi/%d" % i, "kind": "nndvi", "seed": [seed, 110, i], "cost": 3} for i in range(nseq)]
     return out
